@@ -34,6 +34,7 @@ func init() {
 			{ID: "C06-R11", Title: "the halt flag is cleared only by the arming function", Floor: 1, Run: haltClearedOnlyWhenArming},
 			{ID: "C06-R12", Title: "a context that is over already is refused before anything runs", Floor: 1, Run: finishedContextIsRefused},
 			{ID: "C06-R13", Title: "an error is wrapped as it is, not re-rendered through its text (shared with C01)", Floor: 1, Run: messagesAreNotFormats},
+			{ID: "C06-R14", Title: "contexts made from nothing are an explicit table", Floor: 6, Run: detachedContextsAreEnumerated},
 		},
 	})
 }
@@ -840,6 +841,42 @@ func watcherRules(c *core.Ctx, prop string) {
 		"every channel the watcher waits on besides ctx.Done() is created by the arming function, i.e. fresh for each run (a per-VM channel can still hold the previous run's signal and end the new watcher at once, leaving the run un-cancellable)", why...)
 	c.Check(runScoped || guarded, armName+"|watcher-run-scoped", posOf(p, r.watcher),
 		"the watcher is scoped to the run it was started for: it exits through a channel created by the arming function and closed by "+r.disarm.Name()+", and/or sets the halt flag only after checking run state (a watcher that waits on the context alone outlives its run and stops a later one)")
+	// Run identity: being released through the run channel is not enough.  When the context ends at the
+	// very moment the run does, the watcher's select may already have taken the Done() branch; it then
+	// gets to store the halt flag only after stop() and the next start(), where "the VM is running" holds
+	// again - for another run.  The guard therefore compares run state with a value captured when arming.
+	identity := false
+	walkStack(r.watcher.Body, func(n ast.Node, stack []ast.Node) bool {
+		if _, ok := isHaltStore(info, n, r.halt); !ok {
+			return true
+		}
+		for i := len(stack) - 1; i >= 0; i-- {
+			ifs, ok := stack[i].(*ast.IfStmt)
+			if !ok {
+				continue
+			}
+			ast.Inspect(ifs.Cond, func(m ast.Node) bool {
+				be, ok := m.(*ast.BinaryExpr)
+				if !ok || be.Op != token.EQL {
+					return true
+				}
+				for _, pair := range [][2]ast.Expr{{be.X, be.Y}, {be.Y, be.X}} {
+					f := fieldOf(info, pair[0])
+					id, isId := ast.Unparen(pair[1]).(*ast.Ident)
+					if f == nil || !core.RecvNamedOfField(r.vmT, f) || !isId {
+						continue
+					}
+					if o := info.Uses[id]; o != nil && o.Pos() > r.armDecl.Pos() && o.Pos() < r.watcher.Pos() {
+						identity = true // a local of the arming function, captured by the watcher
+					}
+				}
+				return true
+			})
+		}
+		return true
+	})
+	c.Check(identity, armName+"|watcher-checks-run-identity", posOf(p, r.watcher),
+		"the watcher sets the halt flag only if the run in progress is the one it was armed for (it compares run state with a value captured when arming): a watcher woken by its context at the very end of its run otherwise halts the next run, which then returns success with nothing executed")
 	// the disarming function closes/sends on the run channel if one is used
 	if runScoped {
 		closes := false
